@@ -152,11 +152,19 @@ def sig(ctx, kind, spec, extra=(), min_cells=3):
 
 
 # ------------------------------------------------------------------ kind 0: analytic
-def analytic(ctx):
+def analytic(ctx, large=False):
     rng = ctx.rng
-    nd = int(rng.integers(1, 5))
+    nd = 3 if large else int(rng.integers(1, 5))
     spec, mesh, names, _ = rand_mesh(ctx, nd=nd, min_n=3, n_max=5 if nd < 4 else 4,
                                      max_cells=700)
+    if large:
+        # several thousand grid lines along every direction (sizes at which a blocked or
+        # vectorised implementation has more than one block and a partial last one)
+        n_new = np.array([int(rng.integers(3, 6)), int(rng.integers(65, 76)),
+                          int(rng.integers(66, 77))])[rng.permutation(3)]
+        spec = gen.MeshSpec(spec.pmin, spec.cell, n_new, spec.dims, spec.units, spec.flip)
+        mesh = spec.mesh()
+        ctx.event("large_meshes")
     n = tuple(int(k) for k in spec.n)
     cell = np.asarray(mesh.cell, dtype=float)
     # cell coordinates from the centre, in units of the cell: exact half-integers
@@ -252,6 +260,26 @@ def analytic(ctx):
         if okd:
             ctx.check("C05.history.div_unchanged", np.array_equal(dv2.array, dv.array),
                       derived_by=how, new_labels=new, **{k: info[k] for k in ("ndim", "n", "perm")})
+        # history: the field itself (a twin with the mapping written in another key order) is
+        # relabelled: the components keep their axes - a label is a name, the pairing with an
+        # axis is what the mapping says - so the divergence is the same field as before
+        old = list(v.vdims)
+        vm = dict(v.vdim_mapping)
+        w = df.Field(v.mesh, nvdim=nd, value=v.array, vdims=old, valid=v.valid,
+                     vdim_mapping=gen.shuffle_keys(rng, vm, p=1.0))
+        new = gen.pick(rng, [old[1:] + old[:1], old[::-1], [f"w{j}" for j in range(nd)]])
+        okr, _ = ctx.expect_ok("C05.history.relabel_accepted", setattr, w, "vdims", new,
+                               what=dict(info, relabelled="twin of the operand", new_labels=new,
+                                         mapping_as_written=dict(w.vdim_mapping)))
+        if okr:
+            expm = {new[j]: vm[old[j]] for j in range(nd)}
+            okd, dw = ctx.expect_ok("C05.history.div_accepted", lambda: w.div,
+                                    what=dict(info, relabelled="twin", new_labels=new))
+            ctx.check("C05.history.relabelled_keeps_axes",
+                      dict(w.vdim_mapping) == expm and (not okd or np.array_equal(dw.array, dv.array)),
+                      new_labels=new, old_labels=old, mapping_before=vm,
+                      mapping_after=dict(w.vdim_mapping), expected_mapping=expm,
+                      **{k: info[k] for k in ("ndim", "n", "perm")})
 
 
 def check_vector_laplace_mapping(ctx, v, lv, names, info):
@@ -546,6 +574,8 @@ def refusals(ctx):
 
 
 def run_case(ctx, i):
+    if i % 400 == 211:
+        return analytic(ctx, large=True)
     kind = i % 5
     if kind == 0:
         analytic(ctx)
